@@ -79,6 +79,8 @@ func ProfileFor(prop, tier string, r *Rng) *Profile {
 		scale(0.3, KMisuse, KNewObserver)
 	case "C16":
 		scale(8, KReset)
+		scale(3, KShrink, KSetRel)
+		p.Scenarios = 0.02
 		scale(2, KRegister, KNewObserver, KResource)
 		p.NoFixedRels = true
 	case "C17":
@@ -94,6 +96,7 @@ func ProfileFor(prop, tier string, r *Rng) *Profile {
 		scale(2, KShrink, KReset)
 	case "C20":
 		p.Tiny = true
+		p.W[KRegistry] = 0 // histories must stay within 64 component types
 		p.W[KQMisuse] = 8
 		scale(3, KMisuse, KSweep, KStats)
 	case "C19":
